@@ -313,7 +313,7 @@ class Var:
             if isinstance(val, TaintedString):
                 wastainted = 1
             val = ('%' + self.fmt) % (val,)
-            if wastainted and '<' in val:
+            if wastainted:
                 val = TaintedString(val)
 
         # next, look for upper, lower, etc
